@@ -200,17 +200,30 @@ Qed.
 Definition rt_frame (f : frame) : Prop := fn_roundtrips (fr_func f) = true.
 
 Lemma rt_frame_spec f p n : rt_frame f -> cut_last_dot (fr_func f) = (p, n) ->
-  nonl (fr_func f) /\ p <> [] /\ p <> [34].
+  nonl (fr_func f) /\ p <> [34].
 Proof.
   unfold rt_frame, fn_roundtrips, path_of, is_ditto. intros H E. rewrite E in H. cbn [fst] in H.
-  apply andb_true_iff in H as [H H3]. apply andb_true_iff in H as [H1 H2].
-  apply no_nl_nonl in H1. apply negb_true_iff in H2, H3.
-  apply beq_neq in H2, H3. repeat split; assumption.
+  apply andb_true_iff in H as [H1 H2].
+  apply no_nl_nonl in H1. apply negb_true_iff in H2.
+  apply beq_neq in H2. split; assumption.
 Qed.
 
 Lemma beq_true_eq a b : beq a b = true -> a = b.
 Proof. apply beq_eq. Qed.
 
+(* the ditto test of the (fixed) encoder *)
+Definition dittoed (p last : bytes) : bool := beq p last && negb (beq p []).
+
+Lemma dittoed_true p last : dittoed p last = true -> p = last /\ p <> [].
+Proof.
+  unfold dittoed. intro H. apply andb_true_iff in H as [H1 H2].
+  apply beq_true_eq in H1. apply negb_true_iff, beq_neq in H2. split; assumption.
+Qed.
+
+(* Invariant between the encoder's lastImport (last) and the decoder's
+   lastPath (dlast): whenever last is non-empty, dlast = last ++ ".".  When
+   last is empty (initially, or after a frame with an empty package path) the
+   decoder's lastPath may be anything: the next frame is never dittoed. *)
 Lemma decode_encode_locs fs : forall last dlast,
   (last = [] \/ dlast = last ++ [46]) ->
   Forall rt_frame fs ->
@@ -220,20 +233,22 @@ Proof.
   inversion Hall as [|? ? Hf Hfs]; subst.
   cbn [encode_locs map]. unfold plain_loc at 1.
   destruct (cut_last_dot (fr_func f)) as [p n] eqn:E.
-  destruct (rt_frame_spec f p n Hf E) as [Hnl [Hp Hq]].
-  destruct (cut_spec_nonempty _ _ _ E Hp) as [_ Hn].
-  destruct (beq p last) eqn:Epl.
-  - apply beq_true_eq in Epl. subst last.
+  destruct (rt_frame_spec f p n Hf E) as [Hnl Hq].
+  destruct (cut_spec _ _ _ E) as [Hn _].
+  fold (dittoed p last). destruct (dittoed p last) eqn:Epl.
+  - apply dittoed_true in Epl as [-> Hp].
     destruct Hinv as [Hinv|Hinv]; [contradiction|]. subst dlast.
     cbn [decode_lines]. rewrite (render_loc_cut [34] n f Hn).
     cbn [beq N.eqb Pos.eqb andb].
-    rewrite (IH p (p ++ [46])); [|right; reflexivity|exact Hfs].
+    rewrite (IH last (last ++ [46])); [|right; reflexivity|exact Hfs].
     f_equal. unfold render_loc. rewrite <- !app_assoc. reflexivity.
   - cbn [decode_lines]. rewrite (render_loc_cut p n f Hn).
-    destruct p as [|c p]; [contradiction|].
-    assert (Hb : beq (c :: p) [34] = false) by (apply beq_neq; exact Hq).
-    rewrite Hb.
-    rewrite (IH (c :: p) ((c :: p) ++ [46])); [reflexivity|right; reflexivity|exact Hfs].
+    destruct p as [|c p].
+    + (* empty package path: rendered in full, the decoder skips the line *)
+      rewrite (IH [] dlast); [reflexivity|left; reflexivity|exact Hfs].
+    + assert (Hb : beq (c :: p) [34] = false) by (apply beq_neq; exact Hq).
+      rewrite Hb.
+      rewrite (IH (c :: p) ((c :: p) ++ [46])); [reflexivity|right; reflexivity|exact Hfs].
 Qed.
 
 Lemma encode_locs_nonl fs : forall last, Forall (fun f => nonl (fr_func f)) fs ->
@@ -243,7 +258,7 @@ Proof.
   inversion Hall as [|? ? Hf Hfs]; subst. cbn [encode_locs].
   destruct (cut_last_dot (fr_func f)) as [p n] eqn:E.
   destruct (cut_nonl _ _ _ E Hf) as [Hp Hn].
-  destruct (beq p last); constructor; try (apply IH; exact Hfs).
+  destruct (beq p last && negb (beq p [])); constructor; try (apply IH; exact Hfs).
   - apply render_loc_nonl; [repeat constructor; lia|exact Hn].
   - apply render_loc_nonl; assumption.
 Qed.
@@ -251,47 +266,58 @@ Qed.
 Lemma encode_locs_nil last fs : encode_locs last fs = [] -> fs = [].
 Proof.
   destruct fs as [|f fs]; [reflexivity|]. cbn [encode_locs].
-  destruct (cut_last_dot (fr_func f)) as [p n]. destruct (beq p last); discriminate.
+  destruct (cut_last_dot (fr_func f)) as [p n]. destruct (beq p last && negb (beq p [])); discriminate.
 Qed.
 
 Definition pfx_ok (prefix : bytes) : Prop := prefix_ok prefix = true.
 
-Lemma pfx_ok_spec prefix : pfx_ok prefix -> nonl prefix /\ path_of prefix <> [34].
+Lemma pfx_ok_spec prefix : pfx_ok prefix -> Forall (fun l => path_of l <> [34]) (split_byte prefix 10).
 Proof.
-  unfold pfx_ok, prefix_ok, is_ditto. intro H. apply andb_true_iff in H as [H1 H2].
-  apply no_nl_nonl in H1. apply negb_true_iff, beq_neq in H2. split; assumption.
+  unfold pfx_ok, prefix_ok, is_ditto. intro H. rewrite forallb_forall in H.
+  apply Forall_forall. intros l Hl. specialize (H l Hl). apply negb_true_iff, beq_neq in H. exact H.
 Qed.
 
-(* decoding the prefix line leaves it unchanged, whatever it sets lastPath to *)
-Lemma decode_prefix_line prefix ls : path_of prefix <> [34] ->
-  exists dl, decode_lines [] (prefix :: ls) = prefix :: decode_lines dl ls.
+(* decoding the lines of the counter name leaves them unchanged, whatever
+   they set lastPath to *)
+Lemma decode_prefix_lines pls : Forall (fun l => path_of l <> [34]) pls ->
+  forall d0 ls, exists dl, decode_lines d0 (pls ++ ls) = pls ++ decode_lines dl ls.
 Proof.
-  intro Hq. cbn [decode_lines]. unfold path_of in Hq.
-  destruct (cut_last_dot prefix) as [p r]. cbn [fst] in Hq.
-  destruct p as [|c p]; [exists []; reflexivity|].
-  assert (Hb : beq (c :: p) [34] = false) by (apply beq_neq; exact Hq).
-  rewrite Hb. eexists. reflexivity.
+  induction 1 as [|l pls Hq _ IH]; intros d0 ls; [exists d0; reflexivity|].
+  cbn [app decode_lines]. unfold path_of in Hq.
+  destruct (cut_last_dot l) as [p r]. cbn [fst] in Hq.
+  destruct p as [|c p].
+  - destruct (IH d0 ls) as [dl ->]. exists dl. reflexivity.
+  - assert (Hb : beq (c :: p) [34] = false) by (apply beq_neq; exact Hq).
+    rewrite Hb. destruct (IH ((c :: p) ++ [46]) ls) as [dl ->]. exists dl. reflexivity.
 Qed.
 
 Lemma is_stack_app_nl a b : is_stack (a ++ 10 :: b) = true.
 Proof. apply is_stack_true. apply in_or_app. right. left. reflexivity. Qed.
 
-(* the lines of an untruncated name *)
-Definition raw_lines (prefix : bytes) (fs : list frame) : list bytes :=
-  prefix :: match encode_locs [] fs with [] => [[]] | l => l end.
-
-Lemma encode_raw_lines prefix fs : encode_raw prefix fs = join (raw_lines prefix fs) [10].
+Lemma split_app_nl a b : split_byte (a ++ 10 :: b) 10 = split_byte a 10 ++ split_byte b 10.
 Proof.
-  unfold encode_raw, raw_lines. destruct (encode_locs [] fs) as [|l ls]; reflexivity.
+  induction a as [|x a IH]; cbn [app split_byte].
+  - destruct (split_byte b 10) as [|h t] eqn:E; [exfalso; exact (split_byte_nonempty _ _ E)|reflexivity].
+  - rewrite IH. destruct (split_byte a 10) as [|h t] eqn:E; [exfalso; exact (split_byte_nonempty _ _ E)|].
+    cbn [app]. destruct (x =? 10); reflexivity.
 Qed.
 
-Lemma raw_lines_nonl prefix fs : nonl prefix -> Forall (fun f => nonl (fr_func f)) fs ->
-  Forall nonl (raw_lines prefix fs).
+Lemma join_app (a b : list bytes) sep : a <> [] -> b <> [] ->
+  join (a ++ b) sep = join a sep ++ sep ++ join b sep.
 Proof.
-  intros Hp Hfs. unfold raw_lines. constructor; [exact Hp|].
-  pose proof (encode_locs_nonl fs [] Hfs) as H.
-  destruct (encode_locs [] fs); [repeat constructor|exact H].
+  induction a as [|x a IH]; intros Ha Hb; [contradiction|].
+  destruct a as [|y a].
+  - cbn [app]. rewrite join_cons_ne by exact Hb. reflexivity.
+  - change ((x :: y :: a) ++ b) with (x :: ((y :: a) ++ b)).
+    rewrite join_cons_ne by (cbn [app]; discriminate).
+    rewrite IH by (discriminate || exact Hb). rewrite join_cons2. rewrite <- !app_assoc. reflexivity.
 Qed.
+
+(* the lines after the counter name *)
+Definition loc_lines (fs : list frame) : list bytes :=
+  match encode_locs [] fs with [] => [[]] | l => l end.
+Definition plain_lines (fs : list frame) : list bytes :=
+  match map plain_loc fs with [] => [[]] | l => l end.
 
 Lemma rt_frames_nonl fs : Forall rt_frame fs -> Forall (fun f => nonl (fr_func f)) fs.
 Proof.
@@ -299,34 +325,47 @@ Proof.
   destruct (rt_frame_spec f p n Hf E) as [H _]. exact H.
 Qed.
 
-Lemma plain_lines_eq prefix fs :
-  render_plain prefix fs = join (prefix :: match map plain_loc fs with [] => [[]] | l => l end) [10].
-Proof. unfold render_plain. destruct (map plain_loc fs); reflexivity. Qed.
-
-(* decoded lines of an untruncated name = lines of the uncompressed rendering *)
-Lemma decode_raw_lines prefix fs : pfx_ok prefix -> Forall rt_frame fs ->
-  decode_lines [] (raw_lines prefix fs) =
-  prefix :: match map plain_loc fs with [] => [[]] | l => l end.
+Lemma split_encode_raw prefix fs : Forall (fun f => nonl (fr_func f)) fs ->
+  split_byte (encode_raw prefix fs) 10 = split_byte prefix 10 ++ loc_lines fs.
 Proof.
-  intros Hp Hfs. destruct (pfx_ok_spec prefix Hp) as [_ Hq].
-  unfold raw_lines.
-  destruct (decode_prefix_line prefix (match encode_locs [] fs with [] => [[]] | l => l end) Hq) as [dl ->].
-  f_equal.
+  intro Hfs. unfold encode_raw. cbn [app]. rewrite split_app_nl. f_equal. unfold loc_lines.
+  pose proof (encode_locs_nonl fs [] Hfs) as H.
+  destruct (encode_locs [] fs) as [|l ls] eqn:E; [reflexivity|].
+  apply split_join; [discriminate|exact H].
+Qed.
+
+Lemma join_plain_lines fs : join (plain_lines fs) [10] = join (map plain_loc fs) [10].
+Proof. unfold plain_lines. destruct (map plain_loc fs); reflexivity. Qed.
+
+Lemma decode_loc_lines fs dl : Forall rt_frame fs -> decode_lines dl (loc_lines fs) = plain_lines fs.
+Proof.
+  intro Hfs. unfold loc_lines, plain_lines.
   pose proof (decode_encode_locs fs [] dl (or_introl eq_refl) Hfs) as H.
   destruct fs as [|f fs]; [reflexivity|].
   destruct (encode_locs [] (f :: fs)) as [|l ls] eqn:E; [apply encode_locs_nil in E; discriminate|].
   rewrite H. reflexivity.
 Qed.
 
+Lemma plain_lines_nonempty fs : plain_lines fs <> [].
+Proof. unfold plain_lines. destruct (map plain_loc fs); discriminate. Qed.
+
+(* decoded lines of an untruncated name = lines of the uncompressed rendering *)
+Lemma decode_raw_lines prefix fs : pfx_ok prefix -> Forall rt_frame fs ->
+  decode_lines [] (split_byte (encode_raw prefix fs) 10) = split_byte prefix 10 ++ plain_lines fs.
+Proof.
+  intros Hp Hfs. rewrite split_encode_raw by (apply rt_frames_nonl; exact Hfs).
+  destruct (decode_prefix_lines _ (pfx_ok_spec prefix Hp) [] (loc_lines fs)) as [dl ->].
+  rewrite decode_loc_lines by exact Hfs. reflexivity.
+Qed.
+
 Lemma decode_encode_raw prefix fs : pfx_ok prefix -> Forall rt_frame fs ->
   decode_stack (encode_raw prefix fs) = render_plain prefix fs.
 Proof.
-  intros Hp Hfs. destruct (pfx_ok_spec prefix Hp) as [Hnl _].
-  unfold decode_stack. rewrite encode_raw_lines.
-  assert (Hst : is_stack (join (raw_lines prefix fs) [10]) = true).
-  { rewrite <- encode_raw_lines. unfold encode_raw. apply is_stack_app_nl. }
-  rewrite Hst. rewrite split_join; [|discriminate|apply raw_lines_nonl; [exact Hnl|apply rt_frames_nonl; exact Hfs]].
-  rewrite decode_raw_lines by assumption. rewrite plain_lines_eq. reflexivity.
+  intros Hp Hfs. unfold decode_stack.
+  assert (Hst : is_stack (encode_raw prefix fs) = true) by (unfold encode_raw; apply is_stack_app_nl).
+  rewrite Hst, decode_raw_lines by assumption.
+  rewrite join_app; [|intro E; exact (split_byte_nonempty _ _ E)|apply plain_lines_nonempty].
+  rewrite join_split_byte, join_plain_lines. reflexivity.
 Qed.
 
 Lemma untruncated_eq prefix fs : is_truncated prefix fs = false ->
@@ -340,18 +379,51 @@ Proof.
   intros Hp Hfs Ht. rewrite (untruncated_eq _ _ Ht). apply decode_encode_raw; assumption.
 Qed.
 
-(* the known finding: a ditto mark standing for the empty package path *)
+(* formerly the finding ditto-empty-path (fixed in /repo by a2e6094): the frame
+   the runtime returns when no pc symbolises (empty Function) is now rendered
+   in full and round-trips. *)
 Definition zero_frame : frame := mkFrame [] false 0 0.
 
-Lemma decode_encode_refuted :
+Lemma decode_encode_empty_path :
   let prefix := [112] in
-  let fs := [zero_frame] in
-  is_truncated prefix fs = false /\ pfx_ok prefix /\
-  encode_frames prefix fs = prefix ++ [10] ++ [34; 46; 58; 61; 48; 44; 43; 48; 120; 48] /\
-  decode_stack (encode_frames prefix fs) = prefix ++ [10] ++ [58; 61; 48; 44; 43; 48; 120; 48] /\
-  render_plain prefix fs = prefix ++ [10] ++ [46; 58; 61; 48; 44; 43; 48; 120; 48] /\
-  decode_stack (encode_frames prefix fs) <> render_plain prefix fs.
-Proof. vm_compute. repeat split; try reflexivity. discriminate. Qed.
+  let fs := [zero_frame; zero_frame] in
+  Forall rt_frame fs /\ pfx_ok prefix /\ is_truncated prefix fs = false /\
+  encode_frames prefix fs = prefix ++ [10] ++ [46; 58; 61; 48; 44; 43; 48; 120; 48]
+                                   ++ [10] ++ [46; 58; 61; 48; 44; 43; 48; 120; 48] /\
+  decode_stack (encode_frames prefix fs) = render_plain prefix fs.
+Proof. vm_compute. repeat split; try reflexivity; repeat constructor. Qed.
+
+(* the remaining hypotheses are necessary *)
+(* (a) a package path that is a lone ditto mark is read as a ditto *)
+Lemma decode_encode_needs_no_ditto_path :
+  let fs := [mkFrame [97; 46; 102] true 1 2; mkFrame [34; 46; 103] true 1 2] in   (* a.f then Q.g, Q = byte 34 *)
+  pfx_ok [112] /\ is_truncated [112] fs = false /\
+  decode_stack (encode_frames [112] fs) <> render_plain [112] fs.
+Proof. vm_compute. repeat split; discriminate. Qed.
+
+(* (b) a newline inside a function name: the ditto of the next frame expands to
+   the part after the newline only *)
+Lemma decode_encode_needs_no_newline :
+  let fs := [mkFrame [97; 10; 98; 46; 102] true 1 2; mkFrame [97; 10; 98; 46; 103] true 1 2] in
+  pfx_ok [112] /\ is_truncated [112] fs = false /\
+  decode_stack (encode_frames [112] fs) <> render_plain [112] fs.
+Proof. vm_compute. repeat split; discriminate. Qed.
+
+(* (c) a line of the counter name itself that looks like a ditto is expanded *)
+Lemma decode_encode_needs_prefix_ok :
+  let prefix := [34; 46; 120] in                                                 (* Q.x *)
+  prefix_ok prefix = false /\ is_truncated prefix [] = false /\
+  decode_stack (encode_frames prefix []) <> render_plain prefix [].
+Proof. vm_compute. repeat split; discriminate. Qed.
+
+(* the counter name may contain dots and even newlines: its lines only set the
+   decoder's lastPath, which the first frame overrides or ignores *)
+Lemma decode_encode_dotted_prefix :
+  let prefix := [97; 46; 98; 10; 99; 46; 100] in                                 (* a.b newline c.d *)
+  let fs := [zero_frame; mkFrame [109; 46; 102] true 1 2; mkFrame [109; 46; 103] true 1 2] in
+  pfx_ok prefix /\ Forall rt_frame fs /\
+  decode_stack (encode_frames prefix fs) = render_plain prefix fs.
+Proof. vm_compute. repeat split; try reflexivity; repeat constructor. Qed.
 
 (* ------------------------------------------------------------ truncated names: complete lines *)
 
@@ -440,7 +512,7 @@ Lemma decode_encode_truncated prefix fs : pfx_ok prefix -> Forall rt_frame fs ->
   firstn (count_nl kept) (split_byte (decode_stack (encode_frames prefix fs)) 10) =
   firstn (count_nl kept) (split_byte (render_plain prefix fs) 10).
 Proof.
-  intros Hp Hfs Ht kept. destruct (pfx_ok_spec prefix Hp) as [Hnl _].
+  intros Hp Hfs Ht kept.
   rewrite (truncated_eq _ _ Ht). fold kept.
   destruct marker_head as [m Hm].
   rewrite split_decode_stack by (rewrite Hm; apply is_stack_app_nl).
@@ -624,9 +696,10 @@ Proof.
     destruct (id_frame_spec f p n Hf Ef) as [_ [Hp Hdf]].
     destruct (id_frame_spec g q m Hg Eg) as [_ [Hq Hdg]].
     destruct (cut_spec _ _ _ Ef) as [Hn _]. destruct (cut_spec _ _ _ Eg) as [Hm _].
-    destruct (beq p last) eqn:Bp, (beq q last) eqn:Bq; apply cons_inj in E; destruct E as [Eh Et];
+    fold (dittoed p last) in E. fold (dittoed q last) in E.
+    destruct (dittoed p last) eqn:Bp, (dittoed q last) eqn:Bq; apply cons_inj in E; destruct E as [Eh Et];
       destruct (render_loc_inj _ _ _ _ _ _ Hn Hm Eh) as [Epq [Enm [Ea [Eb Ec]]]].
-    + apply beq_true_eq in Bp, Bq. subst p q m.
+    + apply dittoed_true in Bp as [Bp _]. apply dittoed_true in Bq as [Bq _]. subst p q m.
       f_equal; [|exact (IH _ _ Hfs1 Hfs2 Et)].
       apply frame_eq; try assumption. eapply func_of_cut; eassumption.
     + subst q. contradiction.
@@ -653,7 +726,7 @@ Qed.
 Lemma encode_locs_nonempty_lines fs : forall last, Forall (fun l : bytes => l <> []) (encode_locs last fs).
 Proof.
   induction fs as [|f fs IH]; intro last; [constructor|]. cbn [encode_locs].
-  destruct (cut_last_dot (fr_func f)) as [p n]. destruct (beq p last);
+  destruct (cut_last_dot (fr_func f)) as [p n]. destruct (beq p last && negb (beq p []));
     (constructor; [apply render_loc_nonempty|apply IH]).
 Qed.
 
